@@ -55,3 +55,11 @@ Proof.
   destruct (decoded ex_ctx hb_inorder_bytes) as [m|] eqn:E; [|vm_compute in E; discriminate].
   exists m. split; [reflexivity|]. vm_compute in E. injection E as <-. split; vm_compute; reflexivity.
 Qed.
+
+(* the hypotheses of the copy_legal / move_legal theorems hold of the body of that message (two
+   elements, the second with two nested elements) against a fresh deep object of its class *)
+Lemma c11_nonvacuous_parts_lemma :
+  src_ok (m_body ex_list) (create_group ex_body true) = true /\
+  move_ok (m_body ex_list) (create_group ex_body true) = true /\
+  count_fields (obj_of (m_body ex_list)) = 11.
+Proof. repeat split; vm_compute; reflexivity. Qed.
